@@ -93,7 +93,7 @@ def contracts_part(ctx):
 def run(ctx):
     contracts_part(ctx)
     q = ctx.tier == 'quick'
-    variants = ['tie', 'case_tie', 'pad_tie', 'blif_import', 'sani', 'memen', 'memen_samedata', 'regs_tie', 'outs_tie', 'mems_same_name', 'rom_clones',
+    variants = ['tie', 'case_tie', 'pad_tie', 'blif_import', 'sani', 'memen', 'memen_samedata', 'memen_joined', 'regs_tie', 'outs_tie', 'mems_same_name', 'rom_clones',
                 'mems_init', 'regs_same_next', 'cond_fsm']
     fam = [d for d in designs.family('quick', 0) if d['name'] in
            ('mixed_alu', 'mem_two_writes', 'regs_reset', 'shared_subexp', 'rom_func', 'fanout', 'slices')]
